@@ -295,8 +295,7 @@ def common_summaries():
     @reg(r'^<(usize|u64|u32|u16|u8) as Ord>::cmp$|^core::cmp::impls::<impl Ord for \w+>::cmp$')
     def int_cmp(ex, st, fn, argv):
         a, b = deref(ex, st, argv[0]).bv, deref(ex, st, argv[1]).bv
-        d = z3.If(z3.ULT(a, b), z3.BitVecVal(0, 64), z3.If(a == b, z3.BitVecVal(1, 64), z3.BitVecVal(2, 64)))
-        return [(st, Enum(d, {}, 'Ordering'))]
+        return [(st, ordering_enum(z3.ULT(a, b), a == b))]
 
     @reg(r'^std::cmp::min::<(u8|u16|u32|u64|usize)>$|^min::<(u8|u16|u32|u64|usize)>$|^<(u8|u16|u32|u64|usize) as Ord>::min$')
     def int_min(ex, st, fn, argv):
